@@ -211,7 +211,7 @@ def run(rep):
             r = B.reachable_from([bb])
             rep.check(not any(p in r for p in pushes), 'C11.R3.duplicate-first', f'duplicate-first:{gname}', B.where(bb),
                       'NonConsecutiveBindGroups can be returned before all variables were scanned for duplicates', ok_detail='only after the scan loop')
-    tops = [n for n, b in mir.bodies.items() if any(cname(t) == 'naga::front::wgsl::parse_str' for _, t in b.calls())]
+    tops = sorted(n for n, b in mir.bodies.items() if b.kind != 'Closure' and n not in G and any(cname(t) in G for _, t in b.calls()))
     for n in Gn:
         if n in G:
             continue
